@@ -634,3 +634,51 @@ package vegeta
 //@   ensures [no-targets-is-an-error] err == nil || tgts == nil
 //@   loop 1
 //@     invariant len(tgts) == decoded && (cap(tgts) > 0 ==> fresh(tgts)) && t == old(t)
+
+// ---------------------------------------------------------------------------------- C18 (dial path)
+// ConnectTo dial function: mapped addresses rotate over their replacements (the n-th dial of a mapped
+// address goes to addrs[n mod k]; lemma rotation_period), unmapped ones pass through unchanged; the
+// rotation counter is only touched by one atomic add, so concurrent dials do not race.
+//@ func ConnectTo$1$1
+//@   property C18
+//@   atomic roundRobin.n
+//@   requires [dial-function-set] dial != nil
+//@   requires [replacement-lists-non-empty] forall k string :: has(connectTo, k) ==> connectTo[k] != nil && len(connectTo[k].addrs) >= 1
+//@   assume   [fewer-than-2^64-dials] forall k string :: has(connectTo, k) ==> connectTo[k].n < MaxUint64
+//@   modifies connectTo[addr].n
+//@   at call dial: assert [unmapped-passes-through] !has(connectTo, addr) ==> arg2 == addr ;
+//@        assert [mapped-rotates] has(connectTo, addr) ==> arg2 == connectTo[addr].addrs[emod(connectTo[addr].n, len(connectTo[addr].addrs))] ;
+//@        assert [context-and-network-forwarded] arg0 == ctx && arg1 == network
+//@   ensures [counter-advances-by-one] has(connectTo, addr) ==> connectTo[addr].n == old(connectTo[addr].n) + 1
+//@   ensures [map-untouched] forall k string :: has(connectTo, k) == old(has(connectTo, k)) && connectTo[k] == old(connectTo[k])
+
+// DNSCaching dial function. The addresses returned by the cache are owned by the cache: `modifies`
+// does not include them, so any write to that slice (shuffling or compacting it in place) fails a
+// frame obligation -- also inside the swap callback, which is executed once symbolically for
+// arbitrary indices. The random generator is only used while rngMu is held.
+//@ func DNSCaching$1$2$2
+//@   property C18
+//@   requires [dial-function-set] dial != nil && ch != nil && cancel != nil
+//@   at call dial: assert [dials-the-picked-address-with-the-original-port] arg2 == joinhp(ip, port) && arg1 == network
+
+//@ func DNSCaching$1$2
+//@   property C18
+//@   returns (conn, err)
+//@   guarded rand.Rand by &rngMu
+//@   requires [captured-set] dial != nil && resolver != nil && rng != nil && !held(&rngMu)
+//@   modifies *rng
+//@   ghost shuffled bool
+//@   ghost spawned int
+//@   ghost received int
+//@   at call Shuffle: ghost shuffled = true
+//@   before call firstOfEachIPFamily: assert [random-pick-before-selection] shuffled ; assert [works-on-its-own-copy] fresh(arg0)
+//@   at go DNSCaching$1$2$2: ghost spawned = spawned + 1
+//@   at recv ch: ghost received = received + 1
+//@   ensures [one-receive-per-dial] hostport_ok(addr) && received > 0 ==> received == spawned
+//@   ensures [lock-released] !held(&rngMu)
+//@   loop 1
+//@     invariant -1 <= rangeindex && rangeindex < len(ips) && spawned == rangeindex + 1 && received == 0 && !held(&rngMu) && cap(ch) == len(ips) && ch != nil
+//@     decreases len(ips) - rangeindex
+//@   loop 2
+//@     invariant 0 <= i && i <= cap(ch) && received == i && spawned == cap(ch) && !held(&rngMu)
+//@     decreases cap(ch) - i
